@@ -434,6 +434,11 @@ func (s *Store) Lt(x, y *Term) *Term {
 		if y.isConst() && y.f64Val() <= 0 && floatNonNeg(x) {
 			return s.Bool(false) // a non-negative product / quotient is never below zero
 		}
+		if y.isConst() && y.f64Val() == 0 {
+			if c := s.path.floatLtZero(x); c != nil {
+				return c
+			}
+		}
 		return s.mk(&Term{op: OFLt, kind: KBool, a: []*Term{x, y}})
 	}
 	if x.isConst() && y.isConst() {
@@ -817,6 +822,12 @@ func (e *Emitter) bodyInt(t *Term, a []string) string {
 			return a[0]
 		case OMul:
 			return "(* " + a[0] + " " + a[1] + ")"
+		case ODiv:
+			return "(div " + a[0] + " " + a[1] + ")"
+		case ORem:
+			return "(mod " + a[0] + " " + a[1] + ")"
+		case OIte:
+			return "(ite " + a[0] + " " + a[1] + " " + a[2] + ")"
 		case OLt:
 			return "(< " + a[0] + " " + a[1] + ")"
 		case OLe:
